@@ -654,6 +654,15 @@ func c19RejectedParses(c *h.Ctx, n int) {
 					mu.Unlock()
 					return
 				}
+				if k%8 == 4 {
+					// a long text (well beyond any "short path" threshold) next to the rejected ones
+					if _, err := path.Parse(c19LongText); err != nil {
+						mu.Lock()
+						diffs = append(diffs, "concurrent Parse of a long valid text failed: "+err.Error())
+						mu.Unlock()
+						return
+					}
+				}
 				if k%16 == 0 {
 					pi := (k/16 + g) % len(c19Pool)
 					pp, err := path.Parse(c19Pool[pi])
@@ -744,6 +753,9 @@ func parsePool() ([]*path.Path, []bool) {
 	}
 	return paths, exposed
 }
+
+// c19LongText: a valid path of some 3000 bytes.
+var c19LongText = "$" + strings.Repeat(`.list[*] ? (@.x > 1 && @.y == "b")`, 90) + ".x"
 
 // c19PoolKind: what the first Parse of each pool text reported about it.
 var c19PoolKind []string
